@@ -23,9 +23,13 @@ import (
 	"math/rand"
 	"os"
 	"path/filepath"
+	"runtime"
 	"sort"
 	"strconv"
 	"strings"
+	"sync"
+	"sync/atomic"
+	"syscall"
 	"testing"
 	"testing/synctest"
 	"time"
@@ -884,6 +888,7 @@ func (w *world) runFor(d time.Duration) {
 
 func (w *world) exec(o hop) {
 	w.line("gen %s", o)
+	noteProgress(o.String(), false)
 	switch o.kind {
 	case "cap":
 		if o.n < 0 {
@@ -1040,6 +1045,69 @@ func (w *world) exec(o hop) {
 
 var configured = false
 
+// ---------------------------------------------------------------------------------------------------------------
+// hang detection by STATE, not by a wall-clock limit (docs/C16.md "No wall-clock limit decides a verdict").
+// All waiting in the histories is virtual (synctest), so the only way this process can stop making progress is a loop of the
+// code under test that never blocks.  A goroutine OUTSIDE the bubble (real time) watches the operation counter; lack of
+// progress only starts an investigation: if during a further window the counter still has not moved AND the process itself
+// consumed most of that window as CPU time (getrusage), one single operation has burnt tens of CPU seconds - proven spin,
+// independent of machine load (a starved or descheduled process accumulates no CPU time).  Then the current history and all
+// goroutine stacks are written to <VERIF_OUT>.hang and the process exits with status 3.  Otherwise it just keeps waiting.
+// ---------------------------------------------------------------------------------------------------------------
+var progress atomic.Int64
+var curMu sync.Mutex
+var curHist []string
+
+func noteProgress(line string, reset bool) {
+	progress.Add(1)
+	curMu.Lock()
+	if reset {
+		curHist = curHist[:0]
+	}
+	curHist = append(curHist, line)
+	curMu.Unlock()
+}
+
+func cpuTime() time.Duration {
+	var ru syscall.Rusage
+	if syscall.Getrusage(syscall.RUSAGE_SELF, &ru) != nil {
+		return 0
+	}
+	return time.Duration(ru.Utime.Nano() + ru.Stime.Nano())
+}
+
+func startWatchdog(outPath string) {
+	go func() {
+		last, lastChange := progress.Load(), time.Now()
+		for {
+			time.Sleep(5 * time.Second)
+			if p := progress.Load(); p != last {
+				last, lastChange = p, time.Now()
+				continue
+			}
+			if time.Since(lastChange) < 120*time.Second {
+				continue
+			}
+			c0 := cpuTime()
+			time.Sleep(30 * time.Second)
+			if progress.Load() != last {
+				lastChange = time.Now()
+				continue
+			}
+			if cpuTime()-c0 < 20*time.Second {
+				continue // starved or blocked, not spinning: more waiting, no verdict
+			}
+			buf := make([]byte, 1<<20)
+			buf = buf[:runtime.Stack(buf, true)]
+			curMu.Lock()
+			h := strings.Join(curHist, "\n")
+			curMu.Unlock()
+			os.WriteFile(outPath+".hang", []byte("HANG-PROVEN one operation consumed more than 20 s of CPU time without finishing\n"+h+"\n--- stacks ---\n"+string(buf)), 0o644)
+			os.Exit(3)
+		}
+	}()
+}
+
 func runCase(t *testing.T, out *bufio.Writer, k int, src string, cfg caseCfg, ops []hop) {
 	synctest.Test(t, func(t *testing.T) {
 		c := core.DefaultConfig()
@@ -1082,6 +1150,7 @@ func runCase(t *testing.T, out *bufio.Writer, k int, src string, cfg caseCfg, op
 		w.last = time.Now()
 		w.line("case %d %s", k, src)
 		w.line("gen %s", cfg)
+		noteProgress(cfg.String(), true)
 		w.line("op init %d %d %s %s %d", time.Now().UnixNano(), cfg.cap, b01(cfg.serve), b01(cfg.admit), int64(cfg.dnlMs)*1000000)
 		used := map[int]bool{}
 		for _, o := range ops {
@@ -1171,6 +1240,8 @@ func TestTrace(t *testing.T) {
 	defer f.Close()
 	out := bufio.NewWriterSize(f, 1<<20)
 	defer out.Flush()
+	os.Remove(outp + ".hang")
+	startWatchdog(outp)
 
 	k := 0
 	if p := os.Getenv("VERIF_OPS"); p != "" {
